@@ -18,7 +18,7 @@ CONSTANTS N0,        \* cells on level 0
 VARIABLES active,    \* level -> set of active cells (function on 0..MaxLevel)
           hist       \* sequence of [lv |-> l, cells |-> sorted sequence of marked cells]
 vars == <<active, hist>>
-View == active
+View == <<active, Len(hist)>>     \* the step bound depends on the history length
 
 Intervals(S) == {T \in SUBSET S : T # {} /\ \A a \in T, b \in T : \A c \in S : (a < c /\ c < b) => c \in T}
 
